@@ -1124,7 +1124,9 @@ child in order, such that every `Π_c` reads only its two fresh legs, the fresh 
 network and grow by at least four per child, EVERY cut bond `(a, b)` is a bond of the ORIGINAL network, and the value after
 the level is `netValue (bs ++ all.flatMap Ins.cut) (all.map Ins.Pm ++ leaves)` with `leaves` the tensors of the original
 network and `bs = lf62Erase v.bonds all` its bonds without the cut ones: the original network with `Π_c` on every child bond
-at once - the right-hand record of `recursive_truncation_value_telescope` / `recursive_truncation_identity_value`. -/
+at once - the right-hand record of `recursive_truncation_value_telescope` / `recursive_truncation_identity_value`; and the
+bonds of the original network are `bs ++ all.map Ins.plain` up to order, so its value is the left-hand record
+`netValue (bs ++ all.map Ins.plain) leaves`. -/
 theorem truncate_node_level_flat_value (dim : Nat → Nat) (e : Label → Nat) {n : Id} {ids : TTN.TempIds}
     {kdim : Id → Nat} {pre : List TOp} {t t' : TTN} {g g' : LegMap} {v v' : VNet R} {es : List (Lr54Entry R)}
     (hacc : ∀ op ∈ pre, ∃ id, op = TOp.access id)
@@ -1136,11 +1138,16 @@ theorem truncate_node_level_flat_value (dim : Nat → Nat) (e : Label → Nat) {
       (∀ i ∈ all, DependsOn (fun l => l = i.a' ∨ l = i.b') i.Pm) ∧
       (∀ i ∈ all, v.next ≤ i.a') ∧ all.Pairwise (fun x y => x.a' + 4 ≤ y.a') ∧
       (∀ i ∈ all, i.plain ∈ v.bonds) ∧
+      v.bonds.Perm (lf62Erase v.bonds all ++ all.map Ins.plain) ∧
+      (∀ σ, v.value dim σ =
+        netValue dim (lf62Erase v.bonds all ++ all.map Ins.plain) (v.ids.map v.tens) σ) ∧
       ∀ σ, v'.value dim σ =
         netValue dim (lf62Erase v.bonds all ++ all.flatMap Ins.cut) (all.map Ins.Pm ++ v.ids.map v.tens) σ := by
   obtain ⟨all, e1, e2, e3, e4, e5, e6, e7, e8, e9, hval⟩ := lf62_level_flat_core dim e hacc h hl hv hs hr
-  have horig := e9 v.ids v.next (fun k hk => ⟨hk, fun l hl' => hv.fresh k hk l hl'⟩) hn hc
-  refine ⟨all, e1, e2, e3, e5, e6, e7, ?_, hval (lf62Sep_of_orig all horig e6 e3 e7)⟩
+  obtain ⟨horig, hmem⟩ := e9 v.ids v.next (Nat.le_refl _) (fun k hk => ⟨hk, fun l hl' => hv.fresh k hk l hl'⟩) hn hc
+  have hperm := lf62Mem_perm all v.bonds hmem
+  refine ⟨all, e1, e2, e3, e5, e6, e7, ?_, hperm,
+    fun σ => netValue_perm_bonds dim hperm hv.bonds_nodup _ σ, hval (lf62Sep_of_orig all horig e6 e3 e7)⟩
   intro i hi
   rcases e8 i hi with hm | hm | hm
   · exact hm
@@ -1162,7 +1169,7 @@ example : ∃ (v' : VNet Int) (p : Nat × Nat), p ∈ v0.bonds ∧ (∀ σ, VNet
   have hlr : Lr54LevelRun (R := Int) SimDemo.dim SimDemo.e 1 ⟨fun _ => 7, fun _ => 8, fun _ => 9⟩ (fun _ => 3) []
       t0 SimDemo.g v0 [⟨2, v0.next, Pi0⟩] t' g' v' :=
     .cons (.nil _ _ _) (.cons hadm hid (.nil _ _ _)) hdep hr (.nil _ _ _)
-  obtain ⟨all, a1, _, _, _, _, _, a7, a8⟩ := truncate_node_level_flat_value SimDemo.dim SimDemo.e (by simp)
+  obtain ⟨all, a1, _, _, _, _, _, a7, _, _, a8⟩ := truncate_node_level_flat_value SimDemo.dim SimDemo.e (by simp)
     t0_wf.1 t0_wf.2 v0_wf rsim0 hlr (by decide) (by decide)
   exact ⟨v', p, hp, hval, all, by simpa using a1, a7, a8⟩
 
